@@ -154,7 +154,8 @@ VDRIVE_OP(incl)
 	const TA& b = (bmode == "alias") ? a : bc;
 	json res;
 	json v = json::array();
-	for (const Sel& sel : SELS) { v.push_back(runIncl(a, b, sel)); }
+	bool swap = c.value("swap", false);
+	for (const Sel& sel : SELS) { v.push_back(swap ? runIncl(b, a, sel) : runIncl(a, b, sel)); }
 	res["v"] = v;
 	SetStage("readback");
 	res["A_after"] = ReadTA(a, alpha);
